@@ -275,6 +275,37 @@ pub fn generate(seed: u64, n: usize, _thorough: bool, _corpus: Option<&str>) -> 
         let m = random_model(&mut r, stream, &VAR_NAMES);
         cases.push(one(&m, vec![format!("random-{}", streams[stream])]));
     }
+    // row names shaped like an exponent / the start of a number (`e1`, `E`, `E12`, `e`) together with their
+    // underscore-prefixed twins (`_e1`, `_E`): every row keeps the name the user gave, names stay pairwise distinct
+    // (own generator state, fixed-size block)
+    {
+        let mut re = r.fork();
+        let pool = ["e1", "E", "E12", "e", "_e1", "_E", "_E12", "_e", "e2", "cap"];
+        for _ in 0..30 {
+            let nv = 1 + re.below(3);
+            let mut m = LinearModel::new();
+            for v in ["x", "y", "z"].iter().take(nv) { m.add_variable(v, VariableType::Real(-5.0, 10.0)); }
+            let mut rows = pool.to_vec();
+            for _ in 0..2 + re.below(5) {
+                let coeffs: Vec<f64> = (0..nv).map(|_| *re.pick(&[1.0, -1.0, 2.0, 0.5, 3.0])).collect();
+                let cmp = *re.pick(&[Comparison::LessOrEqual, Comparison::GreaterOrEqual, Comparison::Equal]);
+                let i = re.below(rows.len());
+                let n = rows.remove(i);
+                m.add_named_constraint(coeffs, cmp, *re.pick(&[1.0, 4.0, -2.0, 0.0]), n);
+            }
+            m.set_objective((0..nv).map(|_| *re.pick(&[1.0, -1.0, 2.0])).collect(), if re.chance(1, 2) { OptimizationType::Min } else { OptimizationType::Max });
+            cases.push(one(&m, vec!["exponent-like-row-names".into()]));
+        }
+        // the collision itself: `e1` next to `_e1`, `E` next to `_E`
+        let mut m = LinearModel::new();
+        m.add_variable("x", VariableType::Real(-5.0, 10.0));
+        m.add_named_constraint(vec![1.0], Comparison::LessOrEqual, 4.0, "e1");
+        m.add_named_constraint(vec![2.0], Comparison::GreaterOrEqual, -1.0, "_e1");
+        m.add_named_constraint(vec![1.0], Comparison::LessOrEqual, 5.0, "E");
+        m.add_named_constraint(vec![3.0], Comparison::LessOrEqual, 9.0, "_E");
+        m.set_objective(vec![1.0], OptimizationType::Max);
+        cases.push(one(&m, vec!["exponent-like-row-names".into(), "seed-e1-next-to-underscore-e1".into()]));
+    }
     // names that are words of the LP format itself
     let kw = ["free", "inf", "End", "st", "Bounds", "x", "y"];
     for _ in 0..(n / 25).max(4) {
